@@ -765,6 +765,9 @@ func (tc *typechecker) typeof(expr ast.Expression, typeExpected bool) *typeInfo 
 		return tc.checkFieldSelector(t, expr)
 
 	case *ast.TypeAssertion:
+		if expr.Type == nil {
+			panic(tc.errorf(expr, "use of .(type) outside type switch"))
+		}
 		t := tc.checkExpr(expr.Expr)
 		if t.Nil() {
 			panic(tc.errorf(expr, "use of untyped nil"))
